@@ -54,10 +54,10 @@ ASSUMPTIONS = [
     "interval is then floor(|dt|)",
     "the sphere is the one of typhon.constants.earth_radius; pairs whose "
     "chord is within 1e-9*r + 1e-7 km of max_distance may be reported or not",
-    "with max_interval=None (spatial search only) start / end are ignored by "
-    "the implementation (open finding spatial-only/window-ignored); such "
-    "calls are generated rarely, labelled spatial-only-window and compared "
-    "with the search without window",
+    "calls with max_interval=None (spatial search only) and a start / end "
+    "window are generated rarely (label spatial-only-window); a result that "
+    "equals the search without window gets its own signature "
+    "(spatial-only/window-ignored, a defect repaired by 8f492ce)",
 ]
 
 BASE = dt.datetime(2018, 3, 1, 12, 0, 0)
@@ -433,7 +433,7 @@ def run_calls(case, ctx, calls, fresh):
 
         result, names = call_collocate(col, sets, layouts, call)
         if m_s is None and (start is not None or end is not None):
-            # open finding: without max_interval the window is not applied.
+            # (formerly a defect: without max_interval the window was ignored)
             # The claim (exp) is tried first; if the result is instead what
             # the search without window gives, that is reported under its own
             # signature and the remaining checks use that reference.
